@@ -9,8 +9,8 @@ import warnings
 
 from .common import Suite, errname, hx, merge
 
-GEN_UNITS = ["Des", "Totp", "Blowfish", "Scrypt", "B64"]
-LEAN_TARGETS = ["PasslibVerif.Props.C11", "PasslibVerif.Props.C11Blowfish", "PasslibVerif.Props.C11Scrypt"]
+GEN_UNITS = ["Des", "Totp", "Blowfish", "Scrypt", "B64", "Md4"]
+LEAN_TARGETS = ["PasslibVerif.Props.C11", "PasslibVerif.Props.C11Blowfish", "PasslibVerif.Props.C11Scrypt", "PasslibVerif.Props.C11Md4"]
 ASSUMPTIONS = [
     "hashlib/OpenSSL digests, hashlib.pbkdf2_hmac and hashlib.scrypt are external; the Lean Spec/* transcriptions are validated against them on every run",
     "stringprep / unicodedata tables used by saslprep are CPython's (atoms)",
@@ -102,6 +102,34 @@ def correspond(ctx):
     for ln in range(0, 200):
         m = rng.randbytes(ln)
         s_dig.add(f"digest md4 {hx(m)}", lambda m=m: pmd4(m).hexdigest(), "md4-passlib")
+    # passlib's pure-Python MD4 object (Model/Md4.lean, expressions regenerated from _md4.py): one-shot, streaming, copy()
+    for ln in list(range(0, 140)) + [191, 192, 193, 255, 256, 1000]:
+        m = rng.randbytes(ln)
+        s_dig.add(f"md4 oneshot {hx(m)}", lambda m=m: pmd4(m).hexdigest(), "md4-model-oneshot")
+    for _ in range(400 if not ctx.thorough else 6000):
+        k = rng.choice([2, 2, 3, 4])
+        parts = [rng.randbytes(rng.choice([0, 1, 7, 55, 56, 63, 64, 65, 119, 120, 127, 128, 129, rng.randrange(0, 200)])) for _ in range(k)]
+
+        def split(parts=parts):
+            h = pmd4()
+            for p in parts:
+                h.update(p)
+                h.digest()          # digest() must not disturb the state
+            return h.hexdigest()
+
+        s_dig.add("md4 split " + " ".join(hx(p) for p in parts), split, "md4-model-split")
+    for _ in range(150 if not ctx.thorough else 2000):
+        a, b, c = (rng.randbytes(rng.choice([0, 1, 55, 56, 63, 64, 65, 128, rng.randrange(0, 150)])) for _ in range(3))
+
+        def fork(a=a, b=b, c=c):
+            h = pmd4(a)
+            g = h.copy()
+            k = h.copy()
+            h.update(b)
+            g.update(c)
+            return f"{h.hexdigest()} {g.hexdigest()} {k.hexdigest()}"
+
+        s_dig.add(f"md4 fork {hx(a)} {hx(b)} {hx(c)}", fork, "md4-model-fork")
     # HMAC (passlib's compile_hmac) and PBKDF1/2 (passlib entry points) vs the RFC transcriptions over the Lean digests
     for alg, B in (("md5", 64), ("sha1", 64), ("sha256", 64), ("sha512", 128), ("md4", 64)):
         for kl in sorted({0, 1, B - 1, B, B + 1, 2 * B, 2 * B + 3, rng.randrange(0, 3 * B), rng.randrange(0, 3 * B)}):
